@@ -514,7 +514,7 @@ class C29(UICheck):
     assumptions = ["texts are single-line without leading spaces; indentation and width leave room for at least one character"]
 
     def stateful(self):
-        return False
+        return True             # the same text formatted for several widths goes through one process, in order
 
     def nontrivial_key(self, group, events):
         c = group[0]
@@ -540,6 +540,16 @@ class C29(UICheck):
                 for room in rooms:
                     gs.append([{"case": "f%d" % k, "op": "format", "text": words, "sepst": seps, "indent": indent, "width": room + 8 * indent}])
                     k += 1
+        # the same text wrapped again for other widths / indentations by the same process (wide, narrow, wide again)
+        for j in range(60 if tier == "quick" else 600):
+            n = rng.randrange(3, 14)
+            words = ["".join(rng.choice("abcxyz.,") for _ in range(rng.choice([1, 2, 3, 4, 7, 12]))) for _ in range(n)]
+            seps = [rng.choice([1, 1, 1, 2]) for _ in words[1:]]
+            g = []
+            for indent, width in ((1, 80), (1, 24), (1, 80), (0, 24), (2, 24), (1, 17)):
+                g.append({"case": "f%d" % k, "op": "format", "text": words, "sepst": seps, "indent": indent, "width": width})
+                k += 1
+            gs.append(g)
         for _ in range(100 if tier == "quick" else 2000):
             n = rng.randrange(5, 30)
             words = ["".join(rng.choice("abcxyz.,") for _ in range(rng.choice([1, 2, 3, 4, 7, 12, 30]))) for _ in range(n)]
